@@ -3,6 +3,18 @@
 COMMON = "Trusted: the harness's mini API server and event loop reproduce what the reconcilers see (list order chosen by the case, work-queue coalescing, status update = status + annotations, followed by a service event); its reference oracles (pool arithmetic, admission, sharing rule) are written from the property text and the user documentation. Kubernetes admission invariants (>=1 port, families consistent with the policy, immutable primary family) are assumed."
 
 TEXT = {
+    "C05": {
+        "level": "Exploration: generated speaker histories (services, addresses, endpoint slices, node labels/conditions, configuration with peers/advertisements/aggregation/communities/peer lists, membership) through the real reconcilers, Listener, speaker controller and BGP controller over a recording session manager; at every quiescence the last Set on every live session and PeersForService are compared, as sets, with a closed form computed from the CRs.",
+        "design_ref": "DESIGN.md section 6",
+        "note": "Trusted: the closed form (incl. the C10 eligibility iff) and the mini API server / event loop; statuses are controller-consistent; the speaker under test is node0.",
+        "technique": "stateful property-based testing against a closed-form per-peer route set (rapid)",
+    },
+    "C09": {
+        "level": "Exploration: the same speaker histories; at every quiescence two freshly constructed speakers (nodes-then-config, config-then-nodes) are fed the final store and must hold exactly the same layer-2 announcements (service, address, interface scope), per-session route sets and per-service peers as the instance that lived through the history.",
+        "design_ref": "DESIGN.md section 10",
+        "note": "Trusted: the overlay-only goroutine-free announcer constructor; the final store holds a configuration the speaker accepts and controller-consistent statuses. One genuine defect is a known finding (first-seen node with memberlist disabled), excluded by signature.",
+        "technique": "stateful property-based testing: differential against fresh instances (rapid)",
+    },
     "C04": {
         "level": "Exploration: for each generated cluster view one real layer2Controller per node evaluates ShouldAnnounce over the same nodes map, speaker list, configuration (built by config.For from generated CRs) and endpoint slices; the number of announcing nodes must be exactly 1 when the closed-form eligibility predicate of the statement is non-empty and 0 otherwise, the announcer must be eligible, and a second service on the same address must elect the same node.",
         "design_ref": "DESIGN.md section 5",
@@ -72,8 +84,6 @@ TEXT = {
 }
 
 NOT_APPLICABLE = {
-    "C05": "check not built yet (work in progress; see DESIGN.md for the planned generated-input check)",
-    "C09": "check not built yet (work in progress; see DESIGN.md for the planned generated-input check)",
     "C13": "check not built yet (work in progress; see DESIGN.md for the planned generated-input check)",
     "C14": "check not built yet (work in progress; see DESIGN.md for the planned generated-input check)",
     "C15": "check not built yet (work in progress; see DESIGN.md for the planned generated-input check)",
